@@ -154,15 +154,18 @@ CLAIMED = {
         "_double_ended with the model (finding F6 - tmpw_mc_avgx1_var indexed by mc - was reported by this comparison and repaired). Values: avg1/avgx1 = arithmetic "
         "mean of the calibrated temperature; avg2/avgx2 variance = 1/sum(1/var_i) exactly; sel by label vs isel by index of the same elements agree to 1e-10.",
    ref="5/C09", note=TB + "PARTIAL for the avg2/avgx2 VALUE: the code reports the MC mean of the weighted set, which differs from the weighted mean of the calibrated "
-        "temperature by sampling noise; it is judged with an 8-standard-error threshold (sampling support, not proof). `*_avg1` variables are produced in every "
-        "mode (flag tested with `is not None`) - tolerated, they carry the right dims.", technique="Coq proof (finite dims program, weighted-mean algebra) + dims/value correspondence"),
+        "temperature by sampling noise; it is judged with an 8-standard-error threshold (sampling support, not proof). Declared dims are compared with the "
+        "shape of the computed data and confidence bounds with the percentiles of the kept Monte Carlo set (finding F20, repaired: the time-mean block ran in "
+        "every mode and corrupted the lazily evaluated bounds of the x-mean).", technique="Coq proof (finite dims program, weighted-mean algebra) + dims/value correspondence"),
  "C10": dict(
    text="PARTIAL. Proof: every residual row is written at the location it was computed for, for any order of the dictionary and of the stretches (T37; the "
         "pre-repair placement is refuted: finding F7, repaired in all three estimators); the ddof=1 variance is invariant under permutation of the residuals "
         "(T38) and scales with k^2 (T39); data of the model form leave a zero residual at the generating parameters (T40). Conformance: noise planted in one "
         "stretch must show up in exactly that stretch of the returned residual array (finite at reference cells, NaN elsewhere) for ascending and reversed "
-        "dictionary order; noise-free estimate ~ 0; estimate independent of the order; var(k st) = k^2 var(st); the concatenation order compared with the model "
-        "in Coq. What the model cannot exhibit: convergence to s2 (1 - p/n) and slope/offset recovery of variance_stokes_linear - sampling support only.",
+        "dictionary order and for the stretches of ONE bath in any order; noise-free estimate ~ 0; estimate independent of the order; estimate = variance of the "
+        "returned residuals = an independent pooled-residual reference (SVD rank-1 / weighted log-linear fit per stretch, 1e-5) with equal and very unequal "
+        "stretch lengths; var(k st) = k^2 var(st) (finding F19, repaired: LSQR stopped early in the exponential estimator); variance_stokes_linear on a planted "
+        "a*st+b; the concatenation order compared with the model in Coq. What the model cannot exhibit: convergence to s2 (1 - p/n) and slope/offset recovery of variance_stokes_linear - sampling support only.",
    ref="5/C10", note=TB + "Powell (scipy.optimize.minimize) and LSQR are judged on their output; statistical clauses are not theorems.",
    technique="Coq proof of placement / permutation / scaling laws + planted-noise conformance"),
  "C17": dict(
@@ -178,16 +181,18 @@ CLAIMED = {
         "(T41); for ANY order of the directory listing the time axis is the same files ordered by the reader's sort key, chronological whenever the key is "
         "monotone in recorded time (T43); a key that ties is refuted (finding F16 on Halo/Sentinel names, repaired); forward cut-out and flipped backward channel "
         "read raw indices start+k and stop-k whose sum is constant - the sample recorded at L-x (T42); a file set with differing point counts is refused (T44). "
-        "Conformance: file sets written from the bundled vendor templates with per-cell tagged values (Silixa xml through the stacking model inside Coq; "
-        "Sensortran binary; Sensornet .ddf with Oryx and Sentinel templates/names), directory listing reversed, probe series alignment, a file with a different "
-        "point count.",
-   ref="5/C11", note=TB + "XML / .ddf / binary PARSING is modelled by the harness' writer (vlib/gen_files.py), not verified; AP Sensing files are not synthesised.",
+        "Conformance: file sets written from the bundled vendor templates with per-cell tagged values (Silixa double-ended xml through the stacking model "
+        "inside Coq; every bundled Silixa template xml v4/v6/v7/v8; AP Sensing xml; Sensortran binary; Sensornet .ddf with Oryx and Sentinel templates/names "
+        "incl. explicit fiber_length, truncated recordings and the exact forward/reverse row pairing fixed by the file header - finding F21, repaired), "
+        "directory listing reversed, probe series alignment, files with a different point count, a missing and a stray companion file.",
+   ref="5/C11", note=TB + "XML / .ddf / binary PARSING is modelled by the harness' writer (vlib/gen_files.py), not verified; AP Sensing .tra companion files are not synthesised.",
    technique="Coq proof of placement/sorting/mirroring over list models + tagged-file conformance"),
  "C12": dict(
    text="Proof over integer instants: single ended timestart <= time <= timeend, interval = acquisition time, time = midpoint to 1 s; double ended interval = "
         "forward + backward, time = end of the forward measurement (T45); arithmetic on wall-clock readings followed by localisation is right only when the "
         "zone offset does not change over the interval (PARTIAL) and REFUTED across a DST transition (finding F8b, repaired: arithmetic on instants). "
-        "Conformance: Silixa (stamps with offset), Sensortran (epoch seconds) and Sensornet (naive stamps in timezone_input_files incl. DST zones) file sets with "
+        "Conformance: Silixa (double-ended stamps with offset; single-ended xml v4/v6/v7 with UTC stamps), AP Sensing (creationDate; a non-UTC zone must be "
+        "refused), Sensortran (epoch seconds) and Sensornet (naive stamps in timezone_input_files incl. DST zones; transitions of the OUTPUT zone) file sets with "
         "stamps 1990-2037 and acquisition times 1-600 s, each read in a fresh process under four host TZ values and two output zones; a measurement spanning the "
         "spring-forward gap (findings F8a Sensortran host-local conversion, F8b - both repaired).",
    ref="5/C12", note=TB + "pandas / zoneinfo zone tables are runtime data; host TZ is varied through the environment of a fresh process (vlib/tz_worker.py).",
@@ -199,8 +204,8 @@ CLAIMED = {
         "chunking, selection across block boundaries and re-chunking preserve content (coq/Props/C13.v, 4 theorems). What the theorems cannot carry - the dask graph, "
         "scheduler and thread interleaving, and round-off of re-associated reductions - is examined by real runs: reader outputs for load_in_memory True/False/'auto' "
         "under several dask chunk-size limits (synthesised Silixa set, bundled Silixa and AP Sensing sets); single/double-ended calibration, variance_stokes_constant / "
-        "_exponential and ufunc_per_section on datasets re-chunked along x and time, under the synchronous scheduler and the threaded scheduler with 1..16 workers, "
-        "compared with the in-memory result at 1e-10 relative.",
+        "_exponential (estimate AND residual field) and ufunc_per_section on datasets re-chunked along x and time, under the synchronous scheduler and the "
+        "threaded scheduler with 1..16 workers, compared with the in-memory result at 1e-10 relative; two lazily read file sets combined in one graph.",
    ref="5/C13", note=TB + "Thread schedules are sampled by running, not enumerated: a data race that needs a particular interleaving is outside the model (runtime behaviour the "
         "model cannot exhibit). variance_stokes_exponential is limited to <= 4 chunks per dimension. Observation (not a violation of C13): 'auto' is truthy in "
         "`load_in_memory == 'auto' and npartitions <= 5 or load_in_memory`, so 'auto' always loads into memory.",
